@@ -288,4 +288,105 @@ Proof.
   - intros i Hi. rewrite TV. destruct (i =? nb) eqn:A; [lia|reflexivity].
   - rewrite !TV. destruct (nb + S =? nb) eqn:A; [lia|]. destruct (nb =? nb) eqn:B; [|lia]. rewrite <- Emv. lia.
 Qed.
+
+(* moving [cur] along next: the nodes before the new current are the old ones plus [cur] *)
+Lemma ord_advance s cur pos :
+  Inv g K strides v0 s -> Ord g strides s cur pos -> 0 <= cur < 2 * S ->
+  (cur < S -> interior_b g cur = true -> closed_at g strides s cur) ->
+  Ord g strides s (sel (nxt s) cur) pos.
+Proof.
+  intros I O Hcur Hc. destruct O as [Oinj Onx Ogap Olast Oval Opn Onp Odone].
+  constructor; try assumption.
+  intros p Hp Hpi Hd.
+  destruct (Z.eq_dec p cur) as [->|Np]; [apply Hc; [lia|exact Hpi]|].
+  apply Odone; [exact Hp|exact Hpi|]. right.
+  destruct (Z.eq_dec (sel (nxt s) cur) (-1)) as [Em|Nm].
+  - assert (cur = 2 * S - 1).
+    { destruct (Z.eq_dec cur (2 * S - 1)) as [E|N]; [exact E|]. exfalso. apply (i_nx _ _ _ _ _ I cur); lia. }
+    subst cur. apply Olast. lia.
+  - destruct Hd as [Hd|Hd]; [contradiction|].
+    assert (Q := Ogap cur p Hcur ltac:(lia) Nm).
+    assert (pos p <> pos cur) by (intros E; apply Oinj in E; lia). lia.
+Qed.
+
+(* the `for i in range(nstrides)` loop under both invariants *)
+Lemma relax_all_ord (Hall : Forall (stride_ok g) strides) sts : (forall sd, In sd sts -> In sd strides) ->
+  forall s cur cv pos done,
+  Inv g K strides v0 s -> Ord g strides s cur pos -> 0 <= cur < S -> interior_b g cur = true ->
+  cv = sel (vals s) cur -> 1 <= cv ->
+  (forall sd, In sd done -> In sd strides /\ Z.min (sel (vals s) (cur + sd + S)) cv <= sel (vals s) (cur + sd)) ->
+  exists s' pos', fold_res (relax S cur cv) sts s = Ok s' /\ Inv g K strides v0 s' /\ Ord g strides s' cur pos' /\
+    sel (vals s') cur = cv /\ drops s' = drops s /\
+    (forall x, 0 <= x < 2 * S -> (pos' cur <= pos' x <-> pos cur <= pos x)) /\
+    (forall sd, In sd (done ++ sts) -> Z.min (sel (vals s') (cur + sd + S)) cv <= sel (vals s') (cur + sd)).
+Proof.
+  induction sts as [|sd0 sts IH]; intros Hsub s cur cv pos done I O Hcur Hint Ecv Hcv Hdone; cbn [fold_res].
+  - exists s, pos. split; [reflexivity|]. split; [exact I|]. split; [exact O|]. split; [symmetry; exact Ecv|].
+    split; [reflexivity|]. split; [intros; tauto|]. intros sd Hsd. rewrite app_nil_r in Hsd. apply Hdone; exact Hsd.
+  - assert (Hin0 : In sd0 strides) by (apply Hsub; left; reflexivity).
+    assert (Hst0 : stride_ok g sd0) by (rewrite Forall_forall in Hall; apply Hall; exact Hin0).
+    assert (Hcv2 : 1 <= cv <= sel (vals s) cur) by lia.
+    rewrite (relax_eq s cur cv sd0 I Hcur Hint Hst0 Hcv2). cbn [bind].
+    destruct (relax_inv g K v0 strides G s cur cv sd0 I Hcur Hint Hst0 Hin0 Hcv2) as (s1 & E1 & I1 & D1 & _).
+    rewrite (relax_eq s cur cv sd0 I Hcur Hint Hst0 Hcv2) in E1. inversion E1 as [E1']. clear E1.
+    destruct (relinked_ord s cur cv sd0 pos I O Hcur Hint Hst0 Hall Ecv Hcv) as (pos1 & O1 & C1 & V1 & M1 & K1 & R1).
+    rewrite E1' in *.
+    assert (Hdone1 : forall sd, In sd (done ++ [sd0]) ->
+              In sd strides /\ Z.min (sel (vals s1) (cur + sd + S)) cv <= sel (vals s1) (cur + sd)).
+    { intros sd Hsd. apply in_app_or in Hsd. destruct Hsd as [Hsd|[<-|[]]].
+      - destruct (Hdone sd Hsd) as [Hi Hm]. split; [exact Hi|].
+        assert (Hq : 0 <= cur + sd < S) by (apply (interior_step g cur sd G Hint); rewrite Forall_forall in Hall; apply Hall; exact Hi).
+        rewrite (K1 (cur + sd + S)) by lia. assert (Q := M1 (cur + sd)). lia.
+      - split; [exact Hin0|exact R1]. }
+    destruct (IH (fun sd Hsd => Hsub sd (or_intror Hsd)) s1 cur cv pos1 (done ++ [sd0]) I1 O1 Hcur Hint
+                 (eq_sym V1) Hcv Hdone1) as (s2 & pos2 & E2 & I2 & O2 & V2 & D2 & C2 & R2).
+    exists s2, pos2. split; [exact E2|]. split; [exact I2|]. split; [exact O2|]. split; [exact V2|].
+    split; [congruence|]. split.
+    + intros x Hx. rewrite (C2 x Hx). apply C1; exact Hx.
+    + intros sd Hsd. apply R2. rewrite <- app_assoc. exact Hsd.
+Qed.
+
+(* recon_loop_closed: when the while loop returns, no dilate-and-clip step along any stride can
+   raise any interior pixel: the list stayed value-sorted, every visited node was final *)
+Theorem loop_closed (Hall : Forall (stride_ok g) strides) : forall fuel cur s pos,
+  Inv g K strides v0 s -> Ord g strides s cur pos -> -1 <= cur < 2 * S ->
+  match loop fuel S strides cur s with
+  | Ok s' => forall p, 0 <= p < S -> interior_b g p = true -> closed_at g strides s' p
+  | _ => True
+  end.
+Proof.
+  induction fuel as [|f IH]; intros cur s pos I O Hcur; cbn [loop]; [exact Logic.I|].
+  destruct (cur =? -1) eqn:E0.
+  { intros p Hp Hpi. apply (o_done _ _ _ _ _ O p Hp Hpi). left. lia. }
+  destruct (cur <? S) eqn:E1.
+  - rewrite (rd_ok _ _ cur (i_rv _ _ _ _ _ I)) by lia. cbn [bind].
+    destruct (sel (vals s) cur =? 0) eqn:E2.
+    { intros p Hp Hpi.
+      destruct (Z_lt_ge_dec (pos p) (pos cur)) as [L|Ge]; [apply (o_done _ _ _ _ _ O p Hp Hpi); right; exact L|].
+      assert (Vp : sel (vals s) p = 0).
+      { assert (R := i_vk _ _ _ _ _ I p ltac:(lia)).
+        destruct (Z.eq_dec p cur) as [->|Np]; [lia|].
+        assert (pos p <> pos cur) by (intros E; apply (o_inj _ _ _ _ _ O) in E; lia).
+        assert (Q := o_val _ _ _ _ _ O cur p ltac:(lia) ltac:(lia) ltac:(lia)). lia. }
+      intros sd Hsd. rewrite Vp.
+      assert (Hq : 0 <= p + sd < S) by (apply (interior_step g p sd G Hpi); rewrite Forall_forall in Hall; apply Hall; exact Hsd).
+      assert (R := i_vk _ _ _ _ _ I (p + sd) ltac:(lia)). lia. }
+    assert (Hint : interior_b g cur = true).
+    { destruct (interior_b g cur) eqn:Eb; [reflexivity|].
+      destruct (i_pad _ _ _ _ _ I cur ltac:(lia) Eb) as [Z0 _]. lia. }
+    assert (Vc := i_vk _ _ _ _ _ I cur ltac:(lia)).
+    destruct (relax_all_ord Hall strides (fun sd H => H) s cur (sel (vals s) cur) pos [] I O ltac:(lia) Hint eq_refl ltac:(lia)
+                ltac:(intros sd []))
+      as (s1 & pos1 & R1 & I1 & O1 & V1 & D1 & C1 & Cl1).
+    rewrite R1. cbn [bind].
+    rewrite (rd_ok _ _ cur (i_rn _ _ _ _ _ I1)) by lia. cbn [bind].
+    assert (B := i_nb _ _ _ _ _ I1 cur ltac:(lia)).
+    apply (IH (sel (nxt s1) cur) s1 pos1 I1); [|lia].
+    apply ord_advance; [exact I1|exact O1|lia|].
+    intros _ _ sd Hsd. rewrite V1. apply Cl1. exact Hsd.
+  - rewrite (rd_ok _ _ cur (i_rn _ _ _ _ _ I)) by lia. cbn [bind].
+    assert (B := i_nb _ _ _ _ _ I cur ltac:(lia)).
+    apply (IH (sel (nxt s) cur) s pos I); [|lia].
+    apply ord_advance; [exact I|exact O|lia|]. intros Hlt. lia.
+Qed.
 End Order.
